@@ -236,6 +236,10 @@ pub struct Sem<'a> {
     /// differs between TableGen versions)
     hidden: Vec<String>,
     uninit: std::collections::BTreeSet<usize>,
+    /// values of the enclosing foreach loops' lists where they are literal (parallel to loop_vars)
+    loop_values: Vec<Option<Vec<i64>>>,
+    /// defs with a pasted name written in the current outermost loop: (prefix, decl, class, iterator values)
+    loop_defs: Vec<(String, usize, String, Vec<i64>)>,
     /// records defined by the defs of the multiclass body being written (relative name, class)
     mc_records: Vec<(String, Option<String>)>,
     /// inherited field declarations that some record declared again
@@ -294,6 +298,8 @@ impl<'a> Sem<'a> {
             uninit: Default::default(),
             redeclared: Default::default(),
             mc_records: Vec::new(),
+            loop_values: Vec::new(),
+            loop_defs: Vec::new(),
             wrote_unset: false,
             mc_depth: 0,
             untyped_uses: 0,
@@ -327,7 +333,7 @@ impl<'a> Sem<'a> {
         if let Role::Use(d) = &role {
             // a record a defm has defined under a composed name (`SLLI` of `defm SLL`): the name is a
             // value, but no identifier anywhere declares it - nothing to go to, no occurrence
-            if self.p.decls[*d].kind == DeclKind::Defm && self.p.decls[*d].name != name {
+            if matches!(self.p.decls[*d].kind, DeclKind::Defm | DeclKind::Def) && self.p.decls[*d].name != name {
                 return r;
             }
             if self.p.decls[*d].file != self.cur {
@@ -1778,6 +1784,11 @@ impl<'a> Sem<'a> {
         if in_multiclass && !pasted {
             self.mc_records.push((name.clone(), parents.first().cloned()));
         }
+        if pasted && !in_multiclass && self.cond_depth == 0 && self.in_defset.is_none() && self.loop_vars.len() == 1 {
+            if let (Some(Some(vals)), Some(c)) = (self.loop_values.last().cloned(), parents.first().cloned()) {
+                self.loop_defs.push((name.clone(), decl, c, vals));
+            }
+        }
         if !in_multiclass && !pasted {
             self.defs.push(DefInfo { decl, name, class: parents.first().cloned(), via_defm: false });
         }
@@ -1958,10 +1969,20 @@ impl<'a> Sem<'a> {
         let name = self.fresh("i");
         let d = self.declare(DeclKind::ForeachVar, &name, Some(Ty::Int), None, None);
         self.w(" = ");
+        let mut values: Option<Vec<i64>> = None;
         match self.rng.below(4) {
-            0 => self.w("[1, 2, 3]"),
-            1 => self.w("0...3"),
-            2 => self.w("{0-2, 5}"),
+            0 => {
+                self.w("[1, 2, 3]");
+                values = Some(vec![1, 2, 3]);
+            }
+            1 => {
+                self.w("0...3");
+                values = Some(vec![0, 1, 2, 3]);
+            }
+            2 => {
+                self.w("{0-2, 5}");
+                values = Some(vec![0, 1, 2, 5]);
+            }
             _ => {
                 // a one-element list keeps the pasted def names distinct whatever the value is
                 self.w("[");
@@ -1977,6 +1998,7 @@ impl<'a> Sem<'a> {
         self.w(" in ");
         self.scopes.push(vec![Var { name: name.clone(), ty: Ty::Int, decl: d }]);
         self.loop_vars.push(name.clone());
+        self.loop_values.push(values);
         self.p.feat.nested_scopes = self.p.feat.nested_scopes.max(self.scopes.len());
         let top = self.depth == 0;
         let ds = self.in_defset;
@@ -1988,6 +2010,17 @@ impl<'a> Sem<'a> {
             self.block(|s| s.inner_statement(), false);
         }
         self.loop_vars.pop();
+        self.loop_values.pop();
+        if self.loop_vars.is_empty() {
+            // the loop is over: the records it has defined, `d_1`, `d_2`, …, are values from here on
+            for (prefix, decl, class, vals) in std::mem::take(&mut self.loop_defs) {
+                if self.on("foreach-defined-record-value") {
+                    for v in vals {
+                        self.defs.push(DefInfo { decl, name: format!("{prefix}_{v}"), class: Some(class.clone()), via_defm: true });
+                    }
+                }
+            }
+        }
         let popped = self.scopes.pop().unwrap();
         for v in popped {
             self.dead.push((v.name, v.decl));
